@@ -134,7 +134,8 @@ func (b body) defines(key []string) bool {
 	return false
 }
 
-// providers of a key through type sets: the *effective* candidate (parent loader first, then walk order) of the prefix TS,
+// providers of a key through type sets: the *effective* candidate (parent loader first, then walk order; defective files
+// aside) of the prefix TS,
 // when it defines the type set TS and lists the last segment
 func (o *oracle) providers(key []string) []cand {
 	if len(key) < 2 {
@@ -142,7 +143,13 @@ func (o *oracle) providers(key []string) []cand {
 	}
 	ts := key[:len(key)-1]
 	last := key[len(key)-1]
-	cs := o.candidates(ts)
+	// a defective candidate (reported once, then skipped through its placeholder) does not shadow the next one
+	var cs []cand
+	for _, c := range o.candidates(ts) {
+		if code, _ := o.defect(c.f, c.path); code == "" {
+			cs = append(cs, c)
+		}
+	}
 	if len(cs) == 0 {
 		return nil
 	}
